@@ -53,15 +53,19 @@ SizeChoices(rem, i) ==
     IF i > Len(rem) THEN {<<>>}
     ELSE {<<c>> \o t : c \in 0..rem[i], t \in SizeChoices(rem, i + 1)}
 IsEmptySizes(s) == \A i \in 1..Len(s) : s[i] = 0
-AllDelivered == \A i \in 1..Len(env.rem) : env.rem[i] = 0
+\* (as operators of an environment value e, so that MC_Queue can also enumerate whole files with them)
+AllDeliveredOf(e) == \A i \in 1..Len(e.rem) : e.rem[i] = 0
 \* packets the producer may have put next
-NextPackets ==
-    {[t |-> "data", sizes |-> s] : s \in {s \in SizeChoices(env.rem, 1) : ~IsEmptySizes(s) \/ env.other > 0}}
-      \cup (IF env.other > 0 THEN {[t |-> "index"], [t |-> "ignored"]} ELSE {})
-EnvAfter(pkt) ==
+NextPacketsOf(e) ==
+    {[t |-> "data", sizes |-> s] : s \in {s \in SizeChoices(e.rem, 1) : ~IsEmptySizes(s) \/ e.other > 0}}
+      \cup (IF e.other > 0 THEN {[t |-> "index"], [t |-> "ignored"]} ELSE {})
+EnvAfterOf(e, pkt) ==
     IF pkt.t = "data" /\ ~IsEmptySizes(pkt.sizes)
-    THEN [env EXCEPT !.rem = QTup(LAMBDA i : env.rem[i] - pkt.sizes[i], 1, Len(env.rem))]
-    ELSE [env EXCEPT !.other = @ - 1]
+    THEN [e EXCEPT !.rem = QTup(LAMBDA i : e.rem[i] - pkt.sizes[i], 1, Len(e.rem))]
+    ELSE [e EXCEPT !.other = @ - 1]
+AllDelivered == AllDeliveredOf(env)
+NextPackets == NextPacketsOf(env)
+EnvAfter(pkt) == EnvAfterOf(env, pkt)
 
 \* ---- the iterator's next() ---------------------------------------------------------------
 It_Call == /\ Driver = "iterator" /\ it.mode = "idle"
